@@ -1,6 +1,7 @@
 package main
 
 import (
+	"strconv"
 	"os"
 	"golang.org/x/tools/go/ssa"
 	"golang.org/x/tools/go/packages"
@@ -57,9 +58,16 @@ func runC36(c *Ctx) {
 	}
 	// inProtocolRange
 	{
-		p, fd := c.FuncDecl("ledger", "inProtocolRange")
-		ok := false
-		if fd != nil && len(fd.Body.List) == 1 {
+		var p *packages.Package
+		var fd *ast.FuncDecl
+		if o := c.FuncObjOpt("ledger", "inProtocolRange"); o != nil {
+			p, fd = c.Pkg("ledger"), c.Decl(o)
+		}
+		ok := fd == nil // written inline at its uses: the dispatch table below evaluates the comparisons themselves
+		if fd == nil {
+			_, fd = c.FuncDecl("ledger", "DetermineBlockType")
+		}
+		if p != nil && fd != nil && len(fd.Body.List) == 1 {
 			if rs, isR := fd.Body.List[0].(*ast.ReturnStmt); isR && len(rs.Results) == 1 {
 				s := types.ExprString(rs.Results[0])
 				params := []string{}
@@ -107,7 +115,10 @@ func runC36(c *Ctx) {
 		return true
 	})
 	if outer == nil {
-		c.Undecided("DetermineBlockType: layout switch not found")
+		// no layout switch (a guard chain instead): everything is derived from the type-checked program
+		c.determineBlockTypeSemantic(p, fd, nil, rangeOf)
+		c.checkConstructorSwitch("NewBlockFromCbor", true)
+		c.checkConstructorSwitch("NewBlockHeaderFromCbor", false)
 		return
 	}
 	eraOfConst := func(e ast.Expr, prefix string) (string, int64, bool) {
@@ -291,6 +302,10 @@ func (c *Ctx) checkConstructorSwitch(fname string, isBlock bool) {
 				if rs, ok := st.(*ast.ReturnStmt); ok && len(rs.Results) == 1 {
 					call, _ = rs.Results[0].(*ast.CallExpr)
 				}
+				// result-variable form: block, err = NewXBlockFromCbor(…) with one return at the end
+				if as, ok := st.(*ast.AssignStmt); ok && len(as.Rhs) == 1 && len(as.Lhs) == 2 && call == nil {
+					call, _ = as.Rhs[0].(*ast.CallExpr)
+				}
 			}
 			if call == nil {
 				c.Bad("constructor-dispatch", key, cc.Pos(), "the case does not return a constructor call")
@@ -466,14 +481,50 @@ func (c *Ctx) determineBlockTypeSemantic(p *packages.Package, fd *ast.FuncDecl, 
 	// layout atom and values: the tag of the layout switch, as the SSA comparison facts name it
 	var layoutVals []int64
 	layoutName := map[int64]string{}
-	for _, cl := range outer.Body.List {
-		cc := cl.(*ast.CaseClause)
-		for _, e := range cc.List {
-			if v, ok := constInt(p.TypesInfo, e); ok {
-				layoutVals = append(layoutVals, v)
-				layoutName[v] = types.ExprString(e)
+	if outer != nil {
+		for _, cl := range outer.Body.List {
+			cc := cl.(*ast.CaseClause)
+			for _, e := range cc.List {
+				if v, ok := constInt(p.TypesInfo, e); ok {
+					layoutVals = append(layoutVals, v)
+					layoutName[v] = types.ExprString(e)
+				}
 			}
 		}
+	} else {
+		// the header-body length that is compared with the most distinct constants is the layout discriminator; the
+		// constants are named after the package's HeaderBodyLength* constants when they match
+		byAtom := map[string]map[int64]bool{}
+		for _, ef := range edgeFacts(fn) {
+			l, op, r, ok := splitRel(ef.Fact)
+			if !ok || !strings.HasPrefix(l, "len(") || op != "==" && op != "!=" {
+				continue
+			}
+			if k, err := strconv.ParseInt(r, 10, 64); err == nil && k > 2 {
+				if byAtom[l] == nil {
+					byAtom[l] = map[int64]bool{}
+				}
+				byAtom[l][k] = true
+			}
+		}
+		best := ""
+		for a, ks := range byAtom {
+			if best == "" || len(ks) > len(byAtom[best]) {
+				best = a
+			}
+		}
+		for k := range byAtom[best] {
+			layoutVals = append(layoutVals, k)
+			layoutName[k] = fmt.Sprint(k)
+			for _, n := range p.Types.Scope().Names() {
+				if cst, ok := p.Types.Scope().Lookup(n).(*types.Const); ok && strings.HasPrefix(n, "HeaderBodyLength") {
+					if v, ok := constant.Int64Val(constant.ToInt(cst.Val())); ok && v == k {
+						layoutName[k] = n
+					}
+				}
+			}
+		}
+		sort.Slice(layoutVals, func(i, j int) bool { return layoutVals[i] < layoutVals[j] })
 	}
 	layoutAtom, verAtom := "", ""
 	verAtoms := map[string]bool{}
@@ -504,6 +555,24 @@ func (c *Ctx) determineBlockTypeSemantic(p *packages.Package, fd *ast.FuncDecl, 
 							}
 						}
 					}
+				}
+			}
+		}
+	}
+	if verAtom == "" {
+		// range tests written inline: the version is whatever else is compared with small constants
+		for _, g := range closureFuncs(fn, 2) {
+			if g != fn {
+				continue
+			}
+			for _, ef := range edgeFacts(g) {
+				l, _, r, ok := splitRel(ef.Fact)
+				if !ok || l == layoutAtom || strings.HasPrefix(l, "len(") || strings.HasPrefix(l, "phi(") {
+					continue
+				}
+				if k, err := strconv.ParseInt(r, 10, 64); err == nil && k >= 0 && k <= 64 && strings.Contains(l, "uint64") {
+					verAtom = l
+					verAtoms[l] = true
 				}
 			}
 		}
